@@ -6,11 +6,23 @@ ALL = [f"C{n:02d}" for n in range(1, 20)]
 rows = []
 for d in sorted(glob.glob(os.path.join(ROOT, "seeded/*/meta.json"))):
     m = json.load(open(d))
+    first = None
+    fp = os.path.join(os.path.dirname(d), "first_evaluation.json")
+    if os.path.exists(fp):
+        first = json.load(open(fp))
     if not m.get("confirmed"):
         rows.append(f"| {m['id']} | (not confirmed: {m.get('existing_suite_with_patch','')}, demo {m.get('demo_with_patch','')}) | | | |")
         continue
     own = "yes" if m["property"] in m.get("caught_by", []) else "**no**"
-    rows.append("| {} | {} | {} | {} | {} |".format(m["id"], m.get("summary", "").replace("|", "\\|")[:230], m.get("needs", "").replace("|", "\\|")[:200], own, " ".join(m.get("caught_by", []))))
+    if first is not None:
+        was = "yes" if first["property"] in first.get("caught_by", []) else "no"
+        if was != ("yes" if own == "yes" else "no"):
+            own = f"{own} (first evaluation: {was}; caught after strengthening)"
+        elif own == "yes":
+            own = "yes (also at first evaluation)"
+    if m.get("note") and "First evaluation" in m.get("note", ""):
+        own = f"{own} (first evaluation: no; caught after strengthening)" if "first evaluation" not in own else own
+    rows.append("| {} | {} | {} | {} | {} |".format(m["id"], m.get("summary", "").replace("|", "\\|").replace("\n", " ")[:260], m.get("needs", "").replace("|", "\\|").replace("\n", " ")[:240], own, " ".join(m.get("caught_by", []))))
 seeded = "| id | change | needs | caught by its own property's quick check | quick checks that report a violation |\n|---|---|---|---|---|\n" + "\n".join(rows)
 mut = ""
 p = os.path.join(ROOT, "mutants/last_run.json")
